@@ -144,6 +144,19 @@ CHECKS["C20"] = dict(
     technique="self-composition by symbolic execution of rustc MIR (mirsym) with solver-chosen iteration permutations + z3; repeated real runs in fresh processes",
     note="Phase outputs (launch.toml, store.toml, build plan) are not self-composed yet; toml text layer outside (trees compared). " + BASE_NOTE)
 
+CHECKS["C08"] = dict(
+    text="Bounded model checking of the derived Deserialize MIR (deserialize, visit_map, __FieldVisitor::visit_str, defaults, "
+         "deny_unknown_fields, the untagged BuildpackDescriptor) of 17 document structs against schemas written from the CNB spec "
+         "(spec/schemas.py): per struct every subset of present keys (presence is a solver variable) combined with one mutation point "
+         "(none, an undefined key, a wrong kind at a key, a wrong element kind, an invalid child value/element, an empty or two-element "
+         "array); child types are abstracted to accepted/rejected, so the check is compositional. The solver decides accepted <=> "
+         "conforming, that parsed fields equal the document's values / spec defaults, and for descriptors: composite iff `order` is "
+         "present, `order` with `stacks`/`targets` rejected.",
+    design_ref="DESIGN.md §5 C08",
+    technique="symbolic execution of serde-derived rustc MIR (mirsym) over abstract TOML trees with SMT presence variables + z3; witness replay through toml::from_str on the real crate",
+    note="toml text layer and syntax errors outside; identifier/version grammars are C09's; LayerContentMetadata<M> is exercised in C01/C02; "
+         "Process/Slice/WorkingDirectory not yet covered. " + BASE_NOTE)
+
 NOT_YET = "check not built yet in this round (see DESIGN.md §9 build order); no claim is made"
 NOT_APPLICABLE = {}
 ALL = [f"C{i:02d}" for i in range(1, 21)]
